@@ -278,7 +278,7 @@ Proof.
   - pose proof (pd_expr_pres env c) as H. unfold pres in H. destruct (pd_expr env c) as [b c']. cbn [snd fst serase] in *. rewrite H. reflexivity.
   - pose proof (pd_expr_pres env e) as H. unfold pres in H. destruct (pd_expr env e) as [b e']. cbn [snd fst serase] in *. rewrite H. reflexivity.
   - pose proof (pd_expr_pres env rhe) as H. unfold pres in H. destruct (pd_expr env rhe) as [b rhe']. cbn [snd] in H.
-    destruct (denv_is_local env v).
+    destruct (stype_is_local stype).
     + destruct (expr_deg rhe').
       * destruct b; [cbn [snd fst serase]; rewrite H; reflexivity|].
         destruct (denv_set_degree (denv_set_assigned env v) v d). cbn [snd fst serase]. rewrite H. reflexivity.
